@@ -189,4 +189,36 @@ example : (runProcess 5 0 { nodes := [rgRouter] } (rgFrame 5)).2 = { rgFrame 4 w
 example : (runProcess 5 0 { nodes := [rgRouter] } (rgFrame 1)).2 = rgFrame 0
     ∧ (routerProcess 6 { nodes := [rgRouter] } 0 0 (rgFrame 1)).1.log = [.hop 0 3 1] := by decide +kernel
 
+/-! ### the checker is not vacuous: programs of plausible slips are rejected, and one of them misbehaves on a concrete router -/
+
+/-- `process_frame` with the TTL test BEFORE the decrement in the on-link branch (mutation r7b_4) -/
+def testFirstProcess : FProg :=
+  .ifBcast .done (.ifOwnIp .done (.setIfc .dst (.setMac .dst (.ifMac (.ifIfc (.ifEnabled (.ifDstOnIfcNet
+    (.ifTtlLt 1 .done (.decTtl (.setSrcMac (.setDstMac (.send .done))))) (.callRoute .done)) .done) .done) .done))))
+
+example : hopGuarded 1 testFirstProcess false false false false = false := by decide
+/-- no decrement at all -/
+example : hopGuarded 1 (.setIfc .dst (.setMac .dst (.ifIfc (.setSrcMac (.setDstMac (.send .done))) .done))) false false false false = false := by decide
+/-- destination MAC not written -/
+example : hopGuarded 1 (.setIfc .dst (.setMac .dst (.ifIfc (.decTtl (.ifTtlLt 1 .done (.setSrcMac (.send .done)))) .done))) false false false false = false := by
+  decide
+/-- header written BEFORE the look-up that decides the interface -/
+example : hopGuarded 1 (.setSrcMac (.setIfc .dst (.setMac .dst (.ifIfc (.decTtl (.ifTtlLt 1 .done (.setDstMac (.send .done)))) .done)))) false false false false
+    = false := by decide
+/-- countdown off by one (mutation r7b_1) -/
+example : hopGuarded 1 (.setIfc .dst (.setMac .dst (.ifIfc (.decTtl (.ifTtlLt 0 .done (.setSrcMac (.setDstMac (.send .done))))) .done))) false false false false
+    = false := by decide
+/-- the dead branch of the TTL test sends after all -/
+example : hopGuarded 1 (.setIfc .dst (.setMac .dst (.ifIfc (.decTtl (.ifTtlLt 1 (.setSrcMac (.setDstMac (.send .done))) .done)) .done))) false false false false
+    = false := by decide
+
+/-- **counter-model**: on the router of the examples above a frame arriving with TTL 1 is dropped by the translated source (and the model) after
+the hop is logged, while the test-first program SENDS it with TTL 0 — the two programs differ and so do their runs. -/
+theorem C08_route_frame_countermodel :
+    GR.processFrame ≠ testFirstProcess ∧
+    (runProcess 5 0 { nodes := [rgRouter] } (rgFrame 1)).2.dstMac = 11 ∧
+    (runF 5 0 (runRoute 5 0) testFirstProcess { nodes := [rgRouter] } (rgFrame 1) none none 0).2.dstMac = 77 ∧
+    (runF 5 0 (runRoute 5 0) testFirstProcess { nodes := [rgRouter] } (rgFrame 1) none none 0).2.ttl = 0 := by
+  refine ⟨by decide, by decide +kernel, by decide +kernel, by decide +kernel⟩
+
 end Primaite.Forward
